@@ -347,7 +347,8 @@ func elemOfLoop(t *Term, lp *loopInfo) bool {
 	found := false
 	t.Walk(func(x *Term) bool {
 		if x.Op == "index" && len(x.Args) == 2 && lp.over != nil {
-			if x.Args[0].String() == NewTB().Of(lp.over).String() {
+			// (an element picked with a constant index is not the element of the current round)
+			if x.Args[0].String() == NewTB().Of(lp.over).String() && x.Args[1].Op != "const" {
 				found = true
 			}
 		}
